@@ -24,8 +24,9 @@ LEB_SIZES = [6, 14, 26, 38, 50, 74, 86, 110, 146, 170, 194, 230, 266, 302, 350, 
 ASSUME = ["pyscf.dft.gen_grid.Grids (PySCF 2.14) with the same attribute settings is the reference grid",
           "PySCF's Lebedev tables are exact to 1e-15 for their stated algebraic order"]
 YTOL = 1e-12
-# first signature element of the two defects of the pinned tree that every sub-check runs into: one bucket per
-# defect whatever sub-check met it (a known_findings entry ["lmax_ne_10"] / ["atom_grid_default_key"] matches)
+# first signature element of the two defects found on the pinned tree (both fixed since: 5a0a6f1, 2a27342): one
+# bucket per defect whatever sub-check meets it again; regression cases replays/C19/lmax_ne_10.json and
+# replays/C19/atom_grid_default.json
 DEFECT = "cider_grids"
 DTOL = 1e-14
 
@@ -73,8 +74,8 @@ def st_atom_grid(draw, syms):
     uniq = sorted(set(syms))
     chosen = [s for s in uniq if draw(st.booleans())] or [uniq[0]]
     d = {"form": "dict", "v": {s: draw(st_nrad_nang()) for s in chosen}, "default": None}
-    if draw(st.integers(0, 9)) == 0:
-        d["default"] = draw(st_nrad_nang())  # PySCF >= 2.7 'default' key (own signature, see check)
+    if draw(st.booleans()):
+        d["default"] = draw(st_nrad_nang())  # PySCF's 'default' entry for the elements not listed
     return d
 
 
@@ -424,14 +425,13 @@ def pick_threshold(v, size, q):
     return float(np.sqrt(pos[k] * pos[k + 1]) * size)
 
 
-def run_grid_case(case, ctx, sub, kw_fallback=True):
+def run_grid_case(case, ctx, sub):
     from pyscf.dft import gen_grid
 
     from ciderpress.pyscf.gen_cider_grid import CiderGrids
 
     mol = build_mol(case)
     lmax = int(case["lmax"])
-    deferred = []
     syms = [a[0] for a in case["atoms"]]
     ctx.event("natm=%d" % mol.natm)
     ctx.event("prune=%s" % case["prune"])
@@ -442,54 +442,41 @@ def run_grid_case(case, ctx, sub, kw_fallback=True):
     ctx.event("sort_grids=%s" % case["sort_grids"])
     if len(set(syms)) < len(syms):
         ctx.event("repeated_element")
-
-    use_default = True
-    honour_default = default_key_matters(mol, case)
+    default_matters = default_key_matters(mol, case)
+    if default_matters:
+        ctx.event("atom_grid_default_key_in_effect")
 
     def build_cider(level=None, prune="_same", g=None):
-        nonlocal lmax
-        g = configure(CiderGrids(mol, lmax=lmax) if g is None else g, case, level, prune, True)
+        g = configure(CiderGrids(mol, lmax=lmax) if g is None else g, case, level, prune)
         try:
             g.build(sort_grids=case["sort_grids"])
         except ValueError as e:
             if lmax == 10:
                 raise
-            # DESIGN section 6 item 11: the tables are always built with full_lmax = 10
-            ctx.event("lmax_ne_10_build_raised_ValueError")
-            if not deferred or deferred[0][0][0] != "lmax_ne_10":
-                deferred.insert(0, (("lmax_ne_10", "build_raises_ValueError"), {"lmax": lmax, "message": str(e)[:200]}))
-            if lmax == 0 or not kw_fallback:
-                raise Violation((DEFECT, "lmax_ne_10", "build_raises_ValueError"), {"lmax": lmax, "message": str(e)[:200]})
-            # keep searching behind it: same settings with the table width passed explicitly (lmax >= 1 only:
-            # the C recursion writes the l = 1 entries unconditionally)
-            g = configure(CiderGrids(mol, lmax=lmax), case, level, prune, True)
-            g.build(sort_grids=case["sort_grids"], full_lmax=lmax)
-            ctx.event("continued_with_full_lmax_kwarg")
+            # own signature of the (fixed) defect DESIGN section 6 item 11: every lmax in 1..14 is a
+            # documented constructor argument and must build
+            raise Violation((DEFECT, "lmax_ne_10", "build_raises_ValueError"), {"lmax": lmax, "message": str(e)[:200]})
         return g
 
-    def build_ref(level=None, prune="_same", with_default=True):
-        r = configure(gen_grid.Grids(mol), case, level, prune, with_default)
+    def build_ref(level=None, prune="_same"):
+        r = configure(gen_grid.Grids(mol), case, level, prune)
         r.build(sort_grids=case["sort_grids"])
         return r
 
     def full_check(g, stage, level, prune_name):
-        nonlocal use_default
-        ref = build_ref(level, prune_name if prune_name != "_same" else "_same", True)
-        if honour_default:
+        ref = build_ref(level, prune_name)
+        if default_matters:
+            # own signature of the (fixed) defect "atom_grid 'default' key ignored": judged before the generic
+            # multiset oracle so that a regression is bucketed under its own name
             a = multiset_rows(g.coords, g.weights)
             b = multiset_rows(ref.coords, ref.weights)
             if not (a.shape == b.shape and a.tobytes() == b.tobytes()):
-                # the 'default' key of atom_grid (documented by the installed PySCF) is not honoured:
-                # own signature, raised at the end; the remaining oracles use the grid CIDER meant to build
-                ctx.event("atom_grid_default_key_ignored")
-                if not any(d[0][0] == "atom_grid_default_key" for d in deferred):
-                    deferred.append((("atom_grid_default_key", "ignored"),
-                                     {"n_cider": int(a.shape[0]), "n_pyscf": int(b.shape[0]), "atom_grid": case["atom_grid"]}))
-                use_default = False
-                ref = build_ref(level, prune_name, False)
+                raise Violation((DEFECT, "atom_grid_default_key", "ignored"),
+                                {"n_cider": int(a.shape[0]), "n_pyscf": int(b.shape[0]), "atom_grid": case["atom_grid"],
+                                 "stage": stage})
         check_reference(ctx, g, ref, stage)
         pn = case["prune"] if prune_name == "_same" else prune_name
-        exp = expected_tables(mol, case, case["level"] if level is None else level, pn, use_default)
+        exp = expected_tables(mol, case, case["level"] if level is None else level, pn, True)
         n = check_indexer(ctx, mol, g, case, exp, stage, lmax)
         return ref, exp, n
 
@@ -554,16 +541,13 @@ def run_grid_case(case, ctx, sub, kw_fallback=True):
 
     if nontrivial:
         ctx.nontrivial(key)
-    if deferred:
-        sig, detail = deferred[0]
-        raise Violation((DEFECT,) + tuple(sig), detail)
 
 
 # ------------------------------------------------------------------------------------------------
 RULE = ("molecules of 1-4 atoms from H..Ar (element pool with repeats), tetrahedral template x drawn scale, jitter and "
         "rigid motion; level 0-3 or atom_grid as tuple / list / dict over a subset of the elements (n_rad 1-60, n_ang "
-        "any Lebedev size 6..590; 10% of dicts carry PySCF's 'default' key); prune in {nwchem, sg1, treutler, None}; "
-        "5 radial schemes; lmax 1-14 (10 half of the time); alignment in {0,1,2,3,7,8,16,32,64,100}; sort_grids T/F. "
+        "any Lebedev size 6..590; half of the dicts carry PySCF's 'default' entry); prune in {nwchem, sg1, treutler, None}; "
+        "5 radial schemes; plain CiderGrids(mol, lmax).build() with lmax 1-14 (10 half of the time); alignment in {0,1,2,3,7,8,16,32,64,100}; sort_grids T/F. "
         "Oracles: bit-for-bit multiset equality of non-zero-weight (x,y,z,w) and of the whole arrays with "
         "pyscf.dft.gen_grid.Grids of the same settings; idx_map injective into range(all_weights.size), "
         "all_weights[idx_map] == weights[:n] and atom-ordered coordinates rebuilt from rad_arr x PySCF Lebedev "
@@ -601,12 +585,39 @@ def prune_by_density(case, ctx):
     run_grid_case(case, ctx, "prune_by_density")
 
 
-@subcheck("C19", "lmax_build_asan", lambda: st_grid_case(2, 0, False, 1), quick=96, thorough=1200, variant="asan",
+@subcheck("C19", "lmax_build_asan", lambda: st_grid_case(2, 1, False, 1), quick=96, thorough=1200, variant="asan",
           max_shards=4,
-          rule="1-2 atoms, level 0-1 or small atom_grid, lmax drawn from 0..14 (0 included only here: the sanitizer "
-               "build turns an out-of-bounds write of the spherical-harmonic recursion into a report instead of heap "
-               "corruption); build + all oracles of build_index_map in a process preloading the ASan+UBSan build of "
-               "libmcider",
+          rule="1-2 atoms, level 0-1 or small atom_grid, lmax 1..14; build + all oracles of build_index_map in a process "
+               "preloading the ASan+UBSan build of libmcider (the spherical-harmonic recursion runs with every table "
+               "width): an out-of-bounds access is a violation of the case in flight",
           tolerances={"ylm_orthonormality": YTOL, "dirs": DTOL}, assumptions=ASSUME)
 def lmax_build_asan(case, ctx):
     run_grid_case(case, ctx, "lmax_build_asan")
+
+
+@st.composite
+def st_lmax0(draw):
+    return {"atoms": draw(st_geometry(3)), "lmax": draw(st.sampled_from([0, 0, 0, -1, -2]))}
+
+
+@subcheck("C19", "lmax0_rejected", st_lmax0, quick=24, thorough=200, max_shards=2,
+          rule="contract since 5a0a6f1: the indexer takes the grid directions from the l=1 harmonics, so "
+               "CiderGrids(mol, lmax < 1) is rejected with ValueError by the constructor (1-3 atoms, lmax 0 mostly, "
+               "-1, -2); anything else (object returned, other exception type) is a violation; lmax = 1 on the same "
+               "molecule must still construct. distinct by (elements, lmax)",
+          assumptions=ASSUME)
+def lmax0_rejected(case, ctx):
+    from ciderpress.pyscf.gen_cider_grid import CiderGrids
+
+    mol = build_mol(case)
+    lmax = int(case["lmax"])
+    ctx.event("lmax=%d" % lmax)
+    raised = False
+    try:
+        CiderGrids(mol, lmax=lmax)
+    except ValueError:
+        raised = True
+    ctx.check(raised, ("lmax_below_1_accepted",), lmax=lmax)
+    g = CiderGrids(mol, lmax=1)
+    ctx.check(int(g.lmax) == 1 and int(g.nlm) == 4, ("lmax_1_constructor",), lmax=int(g.lmax), nlm=int(g.nlm))
+    ctx.nontrivial([sorted(a[0] for a in case["atoms"]), lmax])
